@@ -2,7 +2,7 @@
 From Coq Require Import NArith List Bool Sorting.Permutation Sorting.Sorted.
 From DV Require Import Base.Outcome Base.Bytes Base.Lex Base.Names C11.Sha C17.Model
   C12.Gen C12.Model C12.Digest C12.Spec C12.ProofsSort C12.ProofsSigned C12.ProofsInj
-  C12.ProofsKey C12.ProofsCrypto C12.KeyModel C12.ProofsRsa C12.ZoneModel C12.ProofsZone C12.ProofsC04 C12.ProofsC05 C12.ProofsZoneSorted C12.SortedModel C12.ProofsSortedRecords.
+  C12.ProofsKey C12.ProofsCrypto C12.KeyModel C12.ProofsRsa C12.ZoneModel C12.ProofsZone C12.ProofsC04 C12.ProofsC05 C12.ProofsZoneSorted C12.SortedModel C12.ProofsSortedRecords C12.ProofsWholeZone.
 Import ListNotations.
 Local Open Scope N_scope.
 
@@ -302,3 +302,30 @@ Theorem C12_any_interleaving_is_sort_dedup : forall vf ops,
   Forall2 (fun a b => kcmp a b = Eq) (fst (c12_sorted_ops ops)) (C13.Model.sorted_records (arrivals ops)).
 Proof. exact any_interleaving_is_sort_dedup. Qed.
 Print Assumptions C12_any_interleaving_is_sort_dedup.
+
+Theorem C12_whole_zone_nsec : forall apex dnskey k l coll sigs,
+  whole_zone_nsec apex dnskey k l = Ok (coll, sigs) ->
+  exists ns,
+    C13.Model.generate_nsecs apex dnskey (C13.Model.strip (C13.Model.sorted_records l)) = Ok ns /\
+    coll = signed_collection l ns /\
+    sigs = spec_zone apex k coll /\
+    sigs = flat_map (fun x => repeat x k) (sign_zone apex 1 coll) /\
+    (forall o t, In (o, t) sigs -> t <> 46 /\ C13.Model.has_type coll o t) /\
+    (forall n, C13.Model.auth_name apex (C13.Model.strip l) n <->
+               exists r, In r ns /\ name_eqb (C13.Model.n_owner r) n = true) /\
+    (forall o t, C13.Model.has_type coll o t <->
+                 C13.Model.has_type (C13.Model.strip l) o t \/
+                 (t = 47 /\ exists r, In r ns /\ name_eqb (C13.Model.n_owner r) o = true)).
+Proof. exact whole_zone_nsec_signed. Qed.
+Print Assumptions C12_whole_zone_nsec.
+
+Theorem C12_whole_zone_authoritative_rrsets_signed : forall apex dnskey k l coll sigs pre g post t,
+  whole_zone_nsec apex dnskey k l = Ok (coll, sigs) -> (0 < k)%nat ->
+  filter (in_zoneb apex) (owner_groups coll) = pre ++ g :: post ->
+  below_earlier_cut apex pre g = false ->
+  In t (map snd g) ->
+  (t = 47 \/ rfc_signed_here (is_zone_cut apex g) (name_eqb (group_owner g) apex) t = true) ->
+  exists o, In (o, t) sigs /\
+            sigs = flat_map (fun x => repeat x k) (sign_zone apex 1 coll).
+Proof. exact whole_zone_authoritative_rrsets_signed. Qed.
+Print Assumptions C12_whole_zone_authoritative_rrsets_signed.
